@@ -380,6 +380,46 @@ impl Fp2Config for Fr255Fq2Config {
 }
 pub type Fr255Fq2 = Fp2<Fr255Fq2Config>;
 
+/// cubic extensions and towers over the same two bases.  Only the (de)serializers, negation and
+/// comparison are exercised, and none of those reads the non-residue, the Frobenius
+/// coefficients or the square-root constants: they are placeholders.
+macro_rules! cubic_over {
+    ($cfg:ident, $ty:ident, $base:ty) => {
+        pub struct $cfg;
+        impl ark_ff::Fp3Config for $cfg {
+            type Fp = $base;
+            const NONRESIDUE: $base = ark_ff::MontFp!("2");
+            const FROBENIUS_COEFF_FP3_C1: &'static [$base] = &[ark_ff::MontFp!("1"); 3];
+            const FROBENIUS_COEFF_FP3_C2: &'static [$base] = &[ark_ff::MontFp!("1"); 3];
+            const TWO_ADICITY: u32 = 1;
+            const TRACE_MINUS_ONE_DIV_TWO: &'static [u64] = &[1];
+            const QUADRATIC_NONRESIDUE_TO_T: ark_ff::Fp3<Self> =
+                ark_ff::Fp3::new(ark_ff::MontFp!("1"), ark_ff::MontFp!("0"), ark_ff::MontFp!("0"));
+        }
+        pub type $ty = ark_ff::Fp3<$cfg>;
+    };
+}
+cubic_over!(SecpFq3Config, SecpFq3, ark_test_curves::secp256k1::Fq);
+cubic_over!(Fr255Fq3Config, Fr255Fq3, ark_test_curves::bls12_381::Fr);
+
+#[derive(Clone, Copy)]
+pub struct SecpFq6Config;
+impl ark_ff::Fp6Config for SecpFq6Config {
+    type Fp2Config = SecpFq2Config;
+    const NONRESIDUE: SecpFq2 = SecpFq2::new(ark_ff::MontFp!("1"), ark_ff::MontFp!("1"));
+    const FROBENIUS_COEFF_FP6_C1: &'static [SecpFq2] = &[SecpFq2::new(ark_ff::MontFp!("1"), ark_ff::MontFp!("0")); 6];
+    const FROBENIUS_COEFF_FP6_C2: &'static [SecpFq2] = &[SecpFq2::new(ark_ff::MontFp!("1"), ark_ff::MontFp!("0")); 6];
+}
+pub type SecpFq6 = ark_ff::Fp6<SecpFq6Config>;
+
+pub struct Fr255Fq4Config;
+impl ark_ff::Fp4Config for Fr255Fq4Config {
+    type Fp2Config = Fr255Fq2Config;
+    const NONRESIDUE: Fr255Fq2 = Fr255Fq2::new(ark_ff::MontFp!("0"), ark_ff::MontFp!("1"));
+    const FROBENIUS_COEFF_FP4_C1: &'static [ark_test_curves::bls12_381::Fr] = &[ark_ff::MontFp!("1"); 4];
+}
+pub type Fr255Fq4 = ark_ff::Fp4<Fr255Fq4Config>;
+
 /// wire model of the with-flags entry points: the flags live in the LAST base-field
 /// coordinate only; every other coordinate is a plain reduced integer
 fn wf_model<F: Field, Fl: GenFlags>(bytes: &[u8], _c: Compress) -> crate::algebra::Model {
@@ -465,6 +505,19 @@ pub fn flags_entries() -> Vec<Entry> {
         wf::<ark_test_curves::bls12_381::Fq2, SWFlags>("with_flags bls12_381::Fq2+SWFlags", 1),
         wf::<ark_test_curves::mnt6_753::Fq3, SWFlags>("with_flags mnt6_753::Fq3+SWFlags", 1),
         wf::<ark_bw6_761::Fq3, TEFlags>("with_flags bw6_761::Fq3+TEFlags", 1),
+        wf::<SecpFq3, SWFlags>("with_flags Fp3(256 bit)+SWFlags", 2),
+        wf::<SecpFq3, TEFlags>("with_flags Fp3(256 bit)+TEFlags", 1),
+        wf::<SecpFq3, EmptyFlags>("with_flags Fp3(256 bit)+EmptyFlags", 1),
+        wf::<Fr255Fq3, SWFlags>("with_flags Fp3(255 bit)+SWFlags", 2),
+        wf::<Fr255Fq3, TEFlags>("with_flags Fp3(255 bit)+TEFlags", 1),
+        wf::<SecpFq6, SWFlags>("with_flags Fp6 3-over-2 (256 bit)+SWFlags", 1),
+        wf::<SecpFq6, EmptyFlags>("with_flags Fp6 3-over-2 (256 bit)+EmptyFlags", 1),
+        wf::<Fr255Fq4, SWFlags>("with_flags Fp4 (255 bit)+SWFlags", 1),
+        wf::<Fr255Fq4, TEFlags>("with_flags Fp4 (255 bit)+TEFlags", 1),
+        w::<SecpFq3>("harness Fp3 over secp256k1::Fq", F, 1, 8),
+        w::<Fr255Fq3>("harness Fp3 over bls12_381::Fr", F, 1, 8),
+        w::<SecpFq6>("harness Fp6 over secp256k1::Fq", F, 1, 8),
+        w::<Fr255Fq4>("harness Fp4 over bls12_381::Fr", F, 1, 8),
         w::<SecpFq2>("harness Fp2 over secp256k1::Fq", F, 1, 8),
         w::<Fr255Fq2>("harness Fp2 over bls12_381::Fr", F, 1, 8),
     ]
